@@ -279,17 +279,21 @@ fn fmt_table(sym: &SymbolFile) -> String {
     format!("T{}#{}#{}#{}", funcs.join(" "), pubs.join(" "), win!(sym.win_stack_framedata_info), win!(sym.win_stack_fpo_info))
 }
 
+/// a symbol file the parser rejects (a line record with no FUNC block open)
+const CORRUPT: &str = "MODULE Linux x86_64 ABCD1234 m1\n10 4 7 1\n";
+
 fn run(line: &str) -> String {
     let mut t = Toks::new(line);
     assert_eq!(t.str(), "M");
     let mbase = t.u64();
     let msize = t.u64();
     let mut tok = t.str();
-    let mut extra: Vec<(u64, u64, bool)> = vec![];
+    // third field: 0 = the supplier does not know the module, 1 = it has the symbol file, 2 = it has a file that does not parse
+    let mut extra: Vec<(u64, u64, u8)> = vec![];
     if tok == "X" {
         let k = t.usize();
         for _ in 0..k {
-            extra.push((t.u64(), t.u64(), t.str() == "1"));
+            extra.push((t.u64(), t.u64(), t.str().parse::<u8>().expect("module flag")));
         }
         tok = t.str();
     }
@@ -312,10 +316,13 @@ fn run(line: &str) -> String {
     for (i, &(b, sz, hs)) in extra.iter().enumerate() {
         let n = format!("x{}", i + 1);
         mods.push(MinidumpModule::new(b, sz as u32, &n));
-        if hs {
+        if hs == 1 {
             symbols.insert(n, text.clone());
+        } else if hs == 2 {
+            symbols.insert(n, CORRUPT.to_string());
         }
     }
+    assert!(SymbolFile::from_bytes(CORRUPT.as_bytes()).is_err(), "the corrupt symbol file parses");
     let names: Vec<String> = mods.iter().map(|m| m.code_file().to_string()).collect();
     let modules = MinidumpModuleList::from_modules(mods);
     let symbolizer = Symbolizer::new(string_symbol_supplier(symbols));
@@ -367,6 +374,24 @@ fn run(line: &str) -> String {
         };
         let g = block_on(symbolizer.get_symbol_at_address("m1", debugid::DebugId::nil(), q));
         out.push(format!("D{}/S{}/G{}", d, s, g.map(|n| nm(&n)).unwrap_or("-".into())));
+    }
+    // the Symbolizer after the session (second pass): pending_stats and the stats entry of every module of the list (and of the
+    // (debug_file, debug_id) pseudo-module of front-end G, code_file ""): C<requested>,<processed>|<loaded><corrupt> or - per module
+    {
+        let ps = symbolizer.pending_stats();
+        let st = symbolizer.stats();
+        let mut keys: Vec<String> = names.clone();
+        keys.push(String::new());
+        let ents: Vec<String> = keys
+            .iter()
+            .map(|n| match st.get(n) {
+                Some(s) => format!("{}{}", s.loaded_symbols as u8, s.corrupt_symbols as u8),
+                None => "-".to_string(),
+            })
+            .collect();
+        let other = st.keys().filter(|k| !keys.contains(k)).count();
+        let tail = if other > 0 { format!("+{}", other) } else { String::new() };
+        out.push(format!("C{},{}|{}{}", ps.symbols_requested, ps.symbols_processed, ents.join(","), tail));
     }
     // twins (judged by the oracle): same printed tables, same fill_symbol callbacks at every query
     //   order  the INLINE ranges of every FUNC block permuted (c11_inline_order_irrelevant)
